@@ -5,6 +5,7 @@ import json, os, shutil, sys
 HERE = os.path.dirname(os.path.dirname(os.path.abspath(__file__)))
 out = os.path.join(HERE, 'seeded')
 rows = [json.loads(l) for l in open(sys.argv[1])]
+wave = sys.argv[2] if len(sys.argv) > 2 else ""        # e.g. "w2" -> ids like C07-w2A
 index = []
 for r in rows:
     if r.get('error'):
@@ -12,7 +13,7 @@ for r in rows:
     pid = r['pid']; x = os.path.basename(r['patch'])[0]
     src = os.path.dirname(r['patch'])
     confirmed = bool(r.get('applies') and r.get('tests_pass') and r.get('demo_clean_rc') == 0 and r.get('demo_patched_rc') not in (0, None))
-    name = '%s-%s' % (pid, x)
+    name = '%s-%s%s' % (pid, wave, x)
     if not confirmed:
         index.append({'id': name, 'kept': False, 'why': 'not confirmed: applies=%s tests_pass=%s demo(clean,patched)=(%s,%s)' % (r.get('applies'), r.get('tests_pass'), r.get('demo_clean_rc'), r.get('demo_patched_rc'))})
         continue
@@ -41,5 +42,10 @@ for r in rows:
     }
     json.dump(meta, open(os.path.join(d, 'meta.json'), 'w'), indent=1)
     index.append({'id': name, 'kept': True, 'caught_by': caught, 'summary': first[:160]})
-json.dump(index, open(os.path.join(out, 'INDEX.json'), 'w'), indent=1)
+ip = os.path.join(out, 'INDEX.json')
+old = []
+if os.path.exists(ip):
+    old = [e for e in json.load(open(ip)) if e['id'] not in {i['id'] for i in index}]
+index = sorted(old + index, key=lambda e: e['id'])
+json.dump(index, open(ip, 'w'), indent=1)
 print(len([i for i in index if i['kept']]), 'kept;', len([i for i in index if i.get('kept') and not i['caught_by']]), 'not caught by the runs recorded')
